@@ -189,44 +189,7 @@ func runC18(c *Ctx) {
 		r.Check("R18.2", FuncName(update), "the default width is LongestLineCells of the cell's text", update.Pos(), found, "")
 		c18HeightShape(c, update, lines, str, height)
 	}
-	// emit measure = layout leaf measure
-	sc := c.Func("length", "StringCells")
-	ws := c.Named("texttable/decoration", "WidthString")
-	if sc != nil && ws != nil {
-		w := c.Field(ws, "W")
-		s := c.Field(ws, "S")
-		n := 0
-		for _, fs := range c.StoresTo(w) {
-			n++
-			ok, why := false, ""
-			// the S stored alongside
-			var sv ssa.Value
-			for _, ss := range c.StoresTo(s) {
-				if ss.Fn == fs.Fn && ss.Base == fs.Base {
-					sv = ss.St.Val
-				}
-			}
-			for _, v := range phiClosure(fs.St.Val) {
-				if call, isCall := v.(*ssa.Call); isCall && call.Call.StaticCallee() == sc && call.Call.Args[0] == sv {
-					ok = true
-					continue
-				}
-				if k, isK := constInt(v); isK && k == 0 {
-					ok = true
-					continue
-				}
-				// the declared width of a single-line item (C04 R04.4)
-				if isDeclaredWidth(v) {
-					continue
-				}
-				ok, why = false, "W is computed by something other than StringCells of the same text: "+v.String()
-				break
-			}
-			r.Check("R18.2", FuncName(fs.Fn), "emit width of a line is StringCells of that line (the leaf of the layout measure)", fs.St.Pos(), ok, why)
-		}
-		r.Floor("R18.2", "constructions of WidthString.W", n, 1)
-		// layout leaf: LongestLineCells measures with StringCells (R18.1) and StringCells is the only user of the width dependency
-	}
+	checkEmitWidth(c, "R18.2")
 
 	// ---- R18.3
 	ix := c.Idx()
@@ -381,4 +344,49 @@ func c18HeightShape(c *Ctx, update, lines *ssa.Function, str, height interface{}
 	default:
 		r.Note("shape-unrecognised R18.2: the height computation in Cell.Update is neither len(Lines(..)) nor 1+Count(..); agreement not evaluated")
 	}
+}
+
+// checkEmitWidth: every construction of WidthString.W is StringCells of the same text (or 0, or the declared
+// width of a single-line item): the emit pass measures with the leaf of the layout measure.
+func checkEmitWidth(c *Ctx, rule string) {
+	r := c.R
+	// emit measure = layout leaf measure
+	sc := c.Func("length", "StringCells")
+	ws := c.Named("texttable/decoration", "WidthString")
+	if sc != nil && ws != nil {
+		w := c.Field(ws, "W")
+		s := c.Field(ws, "S")
+		n := 0
+		for _, fs := range c.StoresTo(w) {
+			n++
+			ok, why := false, ""
+			// the S stored alongside
+			var sv ssa.Value
+			for _, ss := range c.StoresTo(s) {
+				if ss.Fn == fs.Fn && ss.Base == fs.Base {
+					sv = ss.St.Val
+				}
+			}
+			for _, v := range phiClosure(fs.St.Val) {
+				if call, isCall := v.(*ssa.Call); isCall && call.Call.StaticCallee() == sc && call.Call.Args[0] == sv {
+					ok = true
+					continue
+				}
+				if k, isK := constInt(v); isK && k == 0 {
+					ok = true
+					continue
+				}
+				// the declared width of a single-line item (C04 R04.4)
+				if isDeclaredWidth(v) {
+					continue
+				}
+				ok, why = false, "W is computed by something other than StringCells of the same text: "+v.String()
+				break
+			}
+			r.Check(rule, FuncName(fs.Fn), "emit width of a line is StringCells of that line (the leaf of the layout measure)", fs.St.Pos(), ok, why)
+		}
+		r.Floor(rule, "constructions of WidthString.W", n, 1)
+		// layout leaf: LongestLineCells measures with StringCells (R18.1) and StringCells is the only user of the width dependency
+	}
+
 }
